@@ -1,7 +1,6 @@
 package c04
 
 import (
-	"runtime/debug"
 	"context"
 	"crypto/sha256"
 	"encoding/hex"
@@ -140,6 +139,11 @@ func newTestbed(idx int, withH2 bool) (*testbed, error) {
 			MaxRequestsInflight: &proxyv1alpha1.MaxRequestsInflightFlowControlSchema{Max: 0}}}}}, true); err != nil {
 		return tb, err
 	}
+	// disabled: the endpoint is first enabled and found healthy, then disabled (a healthy-but-disabled endpoint is the
+	// case in which a gateway that forgets the flag would still forward)
+	if err := apply(bed.ClusterSpec{Name: tb.hDis, Servers: []string{sDis.URL}}, true); err != nil {
+		return tb, err
+	}
 	if err := apply(bed.ClusterSpec{Name: tb.hDis, Servers: []string{sDis.URL}, Disabled: map[string]bool{sDis.URL: true}}, false); err != nil {
 		return tb, err
 	}
@@ -204,7 +208,7 @@ func TestCheck(t *testing.T) {
 		r.Assume("API-shaped paths the generic WithRequestInfo filter cannot parse are answered by k8s.io/apiserver with a plain-text 500 before kubegateway code runs: excluded and counted (excluded_unparsable_api_path)")
 		r.Assume("request trailers, the Host header and the reason phrase are observed, not judged (not named by the statement)")
 
-		n := r.N(3000, 60000)
+		n := r.N(3000, 250000)
 		workers := 8
 		big := true
 		pool := make(chan *testbed, workers)
@@ -250,18 +254,9 @@ func TestCheck(t *testing.T) {
 			}
 		})
 		// second phase: request body + immediate large reply (see runBodyThenBigReply)
-		m := r.N(1500, 8000)
-		if v := os.Getenv("C04_GC"); v != "" {
-			var pc int
-			fmt.Sscan(v, &pc)
-			old := debug.SetGCPercent(pc)
-			defer debug.SetGCPercent(old)
-		}
-		w2 := workers
-		if v := os.Getenv("C04_W2"); v != "" {
-			fmt.Sscan(v, &w2)
-		}
-		r.Parallel(m, w2, func(j int, g *vkit.Rand) {
+		m := r.N(1500, 30000)
+		// (fewer exchanges at a time: the window was hit more often with little parallelism)
+		r.Parallel(m, workers/2, func(j int, g *vkit.Rand) {
 			i := n + j
 			if only >= 0 && i != only {
 				return
@@ -369,13 +364,6 @@ func runForwardedShape(r *vkit.R, tb *testbed, i int, g *vkit.Rand, big bool, up
 			x.Req.Method = g.Pick([]string{"POST", "PUT", "PATCH"})
 			x.Req.Body, x.Req.Chunked, x.Req.SendCL = g.Bytes(g.Range(1, 3000)), false, true
 			x.ReqBody = len(x.Req.Body)
-			if os.Getenv("C04_MIN") != "" {
-				x.Req.Headers = nil
-				x.connNamed = map[string]bool{}
-				x.ClientAE = false
-				x.Req.Target = "/apis/x/v1/y"
-				x.HostileQ = ""
-			}
 			x.Gzip, x.PlainBody = false, nil
 			var hs []bed.RawHeader
 			for _, h := range x.Reply.Headers {
@@ -385,11 +373,7 @@ func runForwardedShape(r *vkit.R, tb *testbed, i int, g *vkit.Rand, big bool, up
 			}
 			x.Reply.Headers = hs
 			x.Reply.Status = g.PickInt([]int{200, 201, 409, 500})
-			lo, hi := 150000, 400000
-			if v := os.Getenv("C04_SZ"); v != "" {
-				fmt.Sscan(v, &lo, &hi)
-			}
-			x.Reply.Body = g.Bytes(g.Range(lo, hi))
+			x.Reply.Body = g.Bytes(g.Range(150000, 600000))
 			x.ReplyBody = len(x.Reply.Body)
 			x.Reply.Framing, x.Reply.ChunkSize, x.Reply.Trailers = g.Pick([]string{"cl", "chunked", "close"}), 0, nil
 		}
@@ -437,7 +421,7 @@ func runForwardedShape(r *vkit.R, tb *testbed, i int, g *vkit.Rand, big bool, up
 	}
 	if len(seen) == 0 {
 		ct := resp.Header.Get("Content-Type")
-		if resp.Status == 500 && strings.HasPrefix(ct, "text/plain") && strings.Contains(string(resp.Body), "failed to create RequestInfo") {
+		if excludedRequestInfo500(&resp, x.Req.Method) {
 			r.Count("excluded_unparsable_api_path", 1)
 			return
 		}
@@ -613,7 +597,7 @@ func runTerminated(r *vkit.R, tb *testbed, i int, g *vkit.Rand, big bool) {
 		return
 	}
 	w := func() map[string]interface{} { return witness(i, x, &resp, nil, map[string]interface{}{"class": class}) }
-	if resp.Status == 500 && strings.HasPrefix(resp.Header.Get("Content-Type"), "text/plain") && strings.Contains(string(resp.Body), "failed to create RequestInfo") {
+	if excludedRequestInfo500(&resp, x.Req.Method) {
 		// the generic request-info filter is the outermost one: it answers before any kubegateway code (excluded, counted);
 		// non-forwarding is still judged below
 		r.Count("excluded_unparsable_api_path", 1)
@@ -691,4 +675,13 @@ func max0(a int) int {
 		return 0
 	}
 	return a
+}
+
+// excludedRequestInfo500 recognises the answer of the generic (k8s.io/apiserver) request-info filter to an API-shaped
+// path it cannot parse: plain-text 500 written by responsewriters.InternalError (for HEAD only the headers are there).
+func excludedRequestInfo500(resp *bed.RawResponse, method string) bool {
+	if resp.Status != 500 || !strings.HasPrefix(resp.Header.Get("Content-Type"), "text/plain") || resp.Header.Get("X-Content-Type-Options") != "nosniff" {
+		return false
+	}
+	return method == "HEAD" || strings.Contains(string(resp.Body), "failed to create RequestInfo")
 }
